@@ -1,0 +1,1 @@
+//! Verification hooks: `path_select` (thin pass-through wrappers; feature `verif-hooks` only).
